@@ -323,6 +323,7 @@ func (w *WAL) mutateStateLocked(tx stateTxn) error {
 	}
 
 	w.s.Store(&newS)
+	verifSched("state-published")
 	s.finalizer.Store(fn)
 	return nil
 }
@@ -333,6 +334,7 @@ func (w *WAL) mutateStateLocked(tx stateTxn) error {
 // truncated concurrently.
 func (w *WAL) acquireState() (*state, func()) {
 	s := w.loadState()
+	verifSched("state-loaded")
 	return s, s.acquire()
 }
 
@@ -355,6 +357,7 @@ func (w *WAL) FirstIndex() (uint64, error) {
 	if err := w.checkClosed(); err != nil {
 		return 0, err
 	}
+	verifSched("read:closed-checked")
 	s, release := w.acquireState()
 	defer release()
 	return s.firstIndex(), nil
@@ -365,6 +368,7 @@ func (w *WAL) LastIndex() (uint64, error) {
 	if err := w.checkClosed(); err != nil {
 		return 0, err
 	}
+	verifSched("read:closed-checked")
 	s, release := w.acquireState()
 	defer release()
 	return s.lastIndex(), nil
@@ -375,6 +379,7 @@ func (w *WAL) GetLog(index uint64, log *raft.Log) error {
 	if err := w.checkClosed(); err != nil {
 		return err
 	}
+	verifSched("read:closed-checked")
 	s, release := w.acquireState()
 	defer release()
 	w.metrics.IncrementCounter("log_entries_read", 1)
@@ -403,6 +408,7 @@ func (w *WAL) StoreLogs(logs []*raft.Log) error {
 	if len(logs) < 1 {
 		return nil
 	}
+	verifSched("write:closed-checked")
 
 	w.writeMu.Lock()
 	defer w.writeMu.Unlock()
@@ -510,6 +516,7 @@ func (w *WAL) DeleteRange(min uint64, max uint64) error {
 		// Empty inclusive range.
 		return nil
 	}
+	verifSched("write:closed-checked")
 
 	w.writeMu.Lock()
 	defer w.writeMu.Unlock()
@@ -572,6 +579,7 @@ func (w *WAL) Set(key []byte, val []byte) error {
 	if err := w.checkClosed(); err != nil {
 		return err
 	}
+	verifSched("stable:closed-checked")
 	w.metrics.IncrementCounter("stable_sets", 1)
 	return w.metaDB.SetStable(key, val)
 }
@@ -581,6 +589,7 @@ func (w *WAL) Get(key []byte) ([]byte, error) {
 	if err := w.checkClosed(); err != nil {
 		return nil, err
 	}
+	verifSched("stable:closed-checked")
 	w.metrics.IncrementCounter("stable_gets", 1)
 	return w.metaDB.GetStable(key)
 }
@@ -624,6 +633,7 @@ func (w *WAL) triggerRotateLocked(indexStart uint64) {
 func (w *WAL) runRotate() {
 	for {
 		indexStart := <-w.triggerRotate
+		verifSched("rotate:triggered")
 
 		w.writeMu.Lock()
 
@@ -960,6 +970,7 @@ func (w *WAL) Close() error {
 		// Only close once
 		return nil
 	}
+	verifSched("close:flag-set")
 
 	// Wait for writes
 	w.writeMu.Lock()
@@ -977,6 +988,7 @@ func (w *WAL) Close() error {
 	defer s.release()
 
 	w.s.Store(&state{})
+	verifSched("close:state-cleared")
 
 	// Old state might be still in use by readers, attach closers to all open
 	// segment files.
